@@ -9,12 +9,17 @@
      connected: the groups are exactly the components of G_t with >= 2 members,
      complete : every two members are adjacent in G_t,
      k-core   : every member has >= k G_t-neighbours inside its group,
-     star     : some member is adjacent to every other member. *)
+     star     : some member is adjacent to every other member.
+   Exactness (UNBOUNDED, Clone/GroupExact.v): C10_kcore_exact — for every pair list without self
+   pairs, every t, k and map iteration order the k-core model never runs out of fuel and returns
+   exactly the components (>= 2 members) of THE maximal k-core of G_t; C10_connected_spec — the
+   connected model equals the executable component function on every input. The earlier
+   vm_compute theorems over 4 fragments (…_bounded) are kept; they are now instances. *)
 From Coq Require Import NArith ZArith QArith List Bool Permutation.
 From PV Require Import Gen.GroupConst Clone.GroupSpec Clone.GroupSpecProofs Clone.GroupSpecKCore Clone.GroupCommon
   Clone.GroupConnected Clone.GroupComplete Clone.GroupKCore Clone.GroupStar Clone.GroupLattice Clone.GroupRun
   Clone.GroupConnectedProofs Clone.GroupCompleteProofs Clone.GroupKCoreProofs Clone.GroupStarProofs
-  Clone.GroupAll Clone.GroupBounded.
+  Clone.GroupAll Clone.GroupBounded Clone.GroupSpecKCoreProofs Clone.GroupKCoreExact Clone.GroupExact.
 Import ListNotations.
 
 (* Every mode, every pair list (any length, duplicates, any order/orientation), every threshold > 0,
@@ -63,17 +68,81 @@ Theorem C10_reach_decides_connectivity : forall (R : N -> N -> bool) V a b,
   reachb R V a b = true <-> In a V /\ conn (Rin R V) a b.
 Proof. exact reachb_spec. Qed.
 
-(* BOUNDED (vm_compute): on every graph on 4 fragments with weights in {absent, t-1/64, t}, t = 3/4,
+(* ---------------------------------------------------------------- exactness, all inputs *)
+(* Input condition of the k-core exactness theorem: no pair joins a fragment with itself (decidable;
+   the detector only compares fragment i with fragments j > i, so real inputs satisfy it). *)
+Example C10_no_self_pairs_sat :
+  no_self_pairs [(0, 1, (3 # 4)%Q); (2, 1, (1 # 2)%Q); (0, 2, 1%Q)]%N = true.
+Proof. exact no_self_pairs_sat. Qed.
+
+(* k-core, UNBOUNDED: every pair list without self pairs (any length, duplicates, any order and
+   orientation), every threshold, every k, every map iteration order (any permutation of the
+   fragments): the pruning loop and the component search never run out of fuel, and the groups are,
+   up to the order of the groups (members are sorted on both sides), exactly
+   [spec_kcore_groups]: the connected components with >= 2 members of the maximal k-core of G_t. *)
+Theorem C10_kcore_exact : forall t kk G ord,
+  Permutation ord (collect_fragments G) ->
+  no_self_pairs G = true ->
+  exists gs, group_kcore_ord t kk G ord = Some gs /\
+    Permutation gs (map sort_frags (spec_kcore_groups (contract_k kk) t G)).
+Proof. exact group_kcore_exact. Qed.
+
+(* what [spec_kcore_groups] is, in terms of the specification predicates only: P (computed by
+   [prune]) is THE k-core of G_t — duplicate-free, vertices of G, every member has >= k
+   G_t-neighbours in P, and P contains every vertex set with that property (greatest fixpoint, so
+   independent of any removal order); each listed group is one whole connected component with >= 2
+   members of G_t restricted to P; every vertex of P that has a neighbour in P is listed; no
+   fragment is listed twice. *)
+Theorem C10_kcore_spec_sound : forall k t G,
+  let P := prune k t G (length (vertices G)) (vertices G) in
+  max_kcore k t G P /\
+  (forall c, In c (spec_kcore_groups k t G) ->
+     NoDup c /\ (2 <= length c)%nat /\
+     exists v, In v P /\ forall b, In b c <-> conn (adj_in t G P) v b) /\
+  (forall v b, b <> v -> conn (adj_in t G P) v b -> exists c, In c (spec_kcore_groups k t G) /\ In v c) /\
+  NoDup (concat (spec_kcore_groups k t G)).
+Proof. exact spec_kcore_groups_sound. Qed.
+
+(* fuel sufficiency alone *)
+Theorem C10_kcore_total : forall t kk G ord,
+  Permutation ord (collect_fragments G) -> no_self_pairs G = true ->
+  group_kcore_ord t kk G ord <> None.
+Proof. exact group_kcore_total. Qed.
+
+(* the check that the bounded theorem below evaluates on 4 fragments holds for EVERY graph and k
+   (all permutations [perms] of the fragments as map order; contract and equality with the spec) *)
+Theorem C10_kcore_ok_all : forall k G, no_self_pairs G = true -> kcore_ok k G = true.
+Proof. exact kcore_ok_all. Qed.
+
+(* the input condition cannot be dropped: the code counts a self pair >= t as a neighbour
+   (adj[a][a]), the specification does not; smallest instance: two fragments, k = 2 *)
+Theorem C10_kcore_selfpair_refuted :
+  let G := [(0, 0, 1%Q); (0, 1, 1%Q); (1, 1, 1%Q)]%N in
+  no_self_pairs G = false /\
+  group_kcore_ord T 2 G (collect_fragments G) = Some [[0; 1]]%N /\
+  spec_kcore_groups (contract_k 2) T G = [].
+Proof. exact group_kcore_selfpair_refuted. Qed.
+
+(* connected, UNBOUNDED, no side conditions: the model equals the executable component function
+   used by the bounded cross-check (up to the order of the groups; members sorted on both sides) *)
+Theorem C10_connected_spec : forall t G,
+  Permutation (group_connected t G) (map sort_frags (spec_connected_groups t G)).
+Proof. exact group_connected_exact. Qed.
+
+Theorem C10_connected_ok_all : forall G, connected_ok G = true.
+Proof. exact connected_ok_all. Qed.
+
+(* BOUNDED (vm_compute), kept as a regression check; superseded by C10_kcore_exact /
+   C10_kcore_ok_all: on every graph on 4 fragments with weights in {absent, t-1/64, t}, t = 3/4,
    both pair orders, k in {2,3} and EVERY map iteration order, the k-core model terminates and its
-   groups are exactly the components (>= 2 members) of the k-core (GroupSpecKCore.spec_kcore_groups).
-   Full statement not proved: "forall G ord, group_kcore_ord t k G ord = Some (components of the k-core)"
-   (C10_kcore gives the contract for all inputs; exactness and fuel sufficiency are bounded). *)
+   groups are exactly the components (>= 2 members) of the k-core (GroupSpecKCore.spec_kcore_groups). *)
 Theorem C10_kcore_exact_bounded :
   forallb (fun G => kcore_ok 2 G && kcore_ok 3 G) graphs4_3 = true.
 Proof. exact kcore_bounded_all. Qed.
 
-(* BOUNDED cross-check of the two formulations of "components": on the same domain the connected
-   model equals the executable component function (C10_connected is the unbounded statement). *)
+(* BOUNDED cross-check of the two formulations of "components" (superseded by C10_connected_spec /
+   C10_connected_ok_all): on the same domain the connected model equals the executable component
+   function. *)
 Theorem C10_connected_spec_bounded : forallb connected_ok graphs4_3 = true.
 Proof. exact connected_bounded. Qed.
 
@@ -87,3 +156,10 @@ Print Assumptions C10_checker_decides_contract.
 Print Assumptions C10_reach_decides_connectivity.
 Print Assumptions C10_kcore_exact_bounded.
 Print Assumptions C10_connected_spec_bounded.
+Print Assumptions C10_kcore_exact.
+Print Assumptions C10_kcore_spec_sound.
+Print Assumptions C10_kcore_total.
+Print Assumptions C10_kcore_ok_all.
+Print Assumptions C10_kcore_selfpair_refuted.
+Print Assumptions C10_connected_spec.
+Print Assumptions C10_connected_ok_all.
